@@ -385,6 +385,9 @@ class Parser:
                     # Negating a zero literal yields negative zero, a signed
                     # literal — fold it here so the sign survives regardless of
                     # context (a `Neg` under REAL loses it). See `as_real`.
+                    if isinstance(arg.as_real(), Float):
+                        # the operand is already a negative zero: `-(-0)` is `+0`
+                        return Integer(0, loc)
                     return Decnum('-0.0', loc)
                 elif isinstance(arg, Integer):
                     return Integer(-arg.val, loc)
